@@ -60,7 +60,7 @@ func genOp(t *rapid.T, allowShutdown bool) Op {
 	op := Op{Kind: rapid.SampledFrom(kinds).Draw(t, "op")}
 	switch op.Kind {
 	case "mk":
-		op.Filter = rapid.SampledFrom([]string{"all", "none", "once", "action", "onceaction"}).Draw(t, "filter")
+		op.Filter = rapid.SampledFrom([]string{"all", "none", "once", "action", "onceaction", "leave", "leaveaction"}).Draw(t, "filter")
 		op.Action = uint32(rapid.IntRange(1, 3).Draw(t, "faction"))
 		op.Closer = rapid.IntRange(0, 4).Draw(t, "closer") > 0
 	case "rm":
@@ -155,6 +155,12 @@ func (h *handler) filterFn() qnet.Filter {
 			return true, false
 		case "action":
 			return hdr.Action == h.action, true
+		case "leave":
+			// takes nothing and leaves at the first message it is asked about
+			return false, false
+		case "leaveaction":
+			// takes nothing, leaves when it sees its action
+			return false, hdr.Action != h.action
 		default: // onceaction
 			return hdr.Action == h.action, hdr.Action != h.action
 		}
